@@ -7,6 +7,7 @@ use grep_searcher::sinks;
 pub fn dispatch(kind: u32, v: &Val) -> Option<Val> {
     match kind {
         1601 => Some(run_closure_sink(v)),
+        1602 => Some(run_failing_reader(v)),
         _ => None,
     }
 }
@@ -43,4 +44,41 @@ fn run_closure_sink(v: &Val) -> Val {
         }
     };
     Val::L(vec![Val::N(if r.is_ok() { 0 } else { 1 }), Val::L(seen)])
+}
+
+/// kind 1602: "the source's error is returned to the caller": a reader that fails at its j-th read with a
+/// distinctive error (kind PermissionDenied, payload "injected-42"); case: (cfg matcher input heap_limit j),
+/// heap_limit = () | (n).  Result: (status kind_is_preserved payload_is_preserved events_count)
+fn run_failing_reader(v: &Val) -> Val {
+    use std::io::{self, Read};
+    struct Failing { data: Vec<u8>, at: usize, reads: usize, fail_at: usize }
+    impl Read for Failing {
+        fn read(&mut self, buf: &mut [u8]) -> io::Result<usize> {
+            if self.reads == self.fail_at {
+                self.reads += 1;
+                return Err(io::Error::new(io::ErrorKind::PermissionDenied, "injected-42"));
+            }
+            self.reads += 1;
+            let n = std::cmp::min(3, std::cmp::min(buf.len(), self.data.len() - self.at));
+            buf[..n].copy_from_slice(&self.data[self.at..self.at + n]);
+            self.at += n;
+            Ok(n)
+        }
+    }
+    let cfg = decode_cfg(v.fld(0));
+    let m = decode_matcher(&cfg, v.fld(1));
+    let input = v.fld(2).bytes();
+    let mut sb = searcher_builder(&cfg);
+    if let Some(n) = v.fld(3).opt() {
+        sb.heap_limit(Some(n.us()));
+    }
+    let mut searcher = sb.build();
+    let mut sink = LogSink::new(Reply { at: None });
+    let r = searcher.search_reader(&m, Failing { data: input, at: 0, reads: 0, fail_at: v.fld(4).us() }, &mut sink);
+    let (st, kind_ok, payload_ok) = match &r {
+        Ok(()) => (0, true, true),
+        Err(e) => (1, e.kind() == io::ErrorKind::PermissionDenied, e.to_string().contains("injected-42")),
+    };
+    let finished = sink.events.iter().any(|e| matches!(e, Val::L(l) if matches!(l.first(), Some(Val::N(5)))));
+    Val::L(vec![Val::N(st), Val::of_bool(kind_ok), Val::of_bool(payload_ok), Val::of_bool(finished)])
 }
